@@ -368,12 +368,13 @@ func (index *uniqueIndex) CheckIntegrity(ctx MutateContext, fix bool, errorSink 
 	indexBucket := index.getIndexBucket(tx)
 	cursor := indexBucket.Cursor()
 	store := index.symbol.GetStore()
+	// entries are deleted after the scan: deleting under the cursor makes bolt skip the following
+	// entry when the bucket has already been modified in this transaction
+	var toDelete [][]byte
 	for key, val := cursor.First(); key != nil; key, val = cursor.Next() {
 		if !store.IsEntityPresent(tx, string(val)) {
 			if fix {
-				if err := cursor.Delete(); err != nil {
-					return err
-				}
+				toDelete = append(toDelete, clone(key))
 			}
 			errorSink(errors.Errorf("unique index %v.%v references %v for value %v, which doesn't exist",
 				store.GetEntityType(), index.symbol.GetName(), string(val), string(key)), fix)
@@ -383,14 +384,18 @@ func (index *uniqueIndex) CheckIntegrity(ctx MutateContext, fix bool, errorSink 
 				if fix {
 					// just delete it here. It may be a duplicate. If it's not a duplicate, the correct value
 					// will be created when we scan the other side
-					if err := cursor.Delete(); err != nil {
-						return err
-					}
+					toDelete = append(toDelete, clone(key))
 				}
 
 				errorSink(errors.Errorf("unique index %v.%v references %v for value %v which should be %v",
 					store.GetEntityType(), index.symbol.GetName(), string(val), string(key), string(fieldVal)), fix)
 			}
+		}
+	}
+
+	for _, key := range toDelete {
+		if err := indexBucket.Delete(key); err != nil {
+			return err
 		}
 	}
 
@@ -609,6 +614,7 @@ func (index *setIndex) CheckIntegrity(ctx MutateContext, fix bool, errorSink fun
 			if indexBucket := indexBaseBucket.Bucket.Bucket(key); indexBucket != nil {
 				idsCursor := indexBucket.Cursor()
 				referenceCount := 0
+				var idsToDelete [][]byte // deleted after the scan, see uniqueIndex.CheckIntegrity
 				for val, _ := idsCursor.First(); val != nil; val, _ = idsCursor.Next() {
 					hadRefs = true
 					referenceCount++
@@ -616,9 +622,7 @@ func (index *setIndex) CheckIntegrity(ctx MutateContext, fix bool, errorSink fun
 					if !index.symbol.GetStore().IsEntityPresent(tx, string(id)) {
 						// entry has been deleted, remove
 						if fix {
-							if err := idsCursor.Delete(); err != nil {
-								return err
-							}
+							idsToDelete = append(idsToDelete, clone(val))
 							referenceCount--
 						}
 						errorSink(errors.Errorf("for index on %v.%v, val %v references id %v, which doesn't exist",
@@ -636,15 +640,18 @@ func (index *setIndex) CheckIntegrity(ctx MutateContext, fix bool, errorSink fun
 						}
 						if !found {
 							if fix {
-								if err := idsCursor.Delete(); err != nil {
-									return err
-								}
+								idsToDelete = append(idsToDelete, clone(val))
 								referenceCount--
 							}
 							errorSink(errors.Errorf("for index on %v.%v, val %v references id %v, which doesn't contain the value",
 								index.symbol.GetStore().GetEntityType(), index.GetSymbol().GetName(),
 								string(key), string(id)), fix)
 						}
+					}
+				}
+				for _, val := range idsToDelete {
+					if err := indexBucket.Delete(val); err != nil {
+						return err
 					}
 				}
 				if referenceCount == 0 {
@@ -790,13 +797,12 @@ func (index *fkIndex) CheckIntegrity(ctx MutateContext, fix bool, errorSink func
 			continue
 		}
 		fkCursor := setBucket.Cursor()
+		var toDelete [][]byte // deleted after the scan, see uniqueIndex.CheckIntegrity
 		for val, _ := fkCursor.First(); val != nil; val, _ = fkCursor.Next() {
 			_, fkId := GetTypeAndValue(val)
 			if !index.symbol.GetStore().IsEntityPresent(tx, string(fkId)) {
 				if fix {
-					if err := fkCursor.Delete(); err != nil {
-						return err
-					}
+					toDelete = append(toDelete, clone(val))
 				}
 				errorSink(errors.Errorf("for fk %v.%v, %v %v references %v %v, which doesn't exist",
 					index.symbol.GetStore().GetEntityType(), index.symbol.GetName(),
@@ -806,9 +812,7 @@ func (index *fkIndex) CheckIntegrity(ctx MutateContext, fix bool, errorSink func
 				_, key := index.symbol.Eval(tx, fkId)
 				if key == nil || !bytes.Equal(key, id) {
 					if fix {
-						if err := fkCursor.Delete(); err != nil {
-							return err
-						}
+						toDelete = append(toDelete, clone(val))
 					}
 
 					logVal := string(key)
@@ -821,6 +825,11 @@ func (index *fkIndex) CheckIntegrity(ctx MutateContext, fix bool, errorSink func
 						index.fkSymbol.GetStore().GetSingularEntityType(), string(id),
 						index.symbol.GetStore().GetSingularEntityType(), string(fkId), logVal), fix)
 				}
+			}
+		}
+		for _, val := range toDelete {
+			if err := setBucket.Delete(val); err != nil {
+				return err
 			}
 		}
 	}
